@@ -56,6 +56,7 @@ class RuleContract:
         self.checked = 0
         self.skipped_ref_err = 0
         self.intermediate_not_evaluable = []
+        self.harness_errors = []
         self.violations = []  # (rule, ref str, out str, why)
         self.by_rule = {}
         self.installed = 0
@@ -97,9 +98,15 @@ class RuleContract:
             if b[0] == "err":
                 rc.intermediate_not_evaluable.append((rname, _s(ref), _s(out), b[1]))
                 return out
-            r = D.equiv(a[1], b[1])
-            if r is False:
-                r = D.equiv(a[1], b[1], order_free=True, index_free=True)
+            try:
+                r = D.equiv(a[1], b[1])
+                if r is False:
+                    r = D.equiv(a[1], b[1], order_free=True, index_free=True)
+            except Exception as ex:
+                # a failure of the comparison itself is the harness's problem, never the optimizer's: it must not
+                # escape into the rule that is being observed
+                rc.harness_errors.append(f"{rname}: comparison failed: {type(ex).__name__}: {str(ex)[:160]}")
+                return out
             if r is False and kind == "up" and type(ref).__name__ in ("Head", "Tail", "BlockwiseHead", "BlockwiseTail"):
                 # head/tail pushed below a sort may return up to n rows where the first/last partition alone
                 # holds fewer (dask only warns about insufficient elements): prefix / suffix accepted
